@@ -135,7 +135,13 @@ bigint_forms = st.one_of(
     st.tuples(st.integers(2, 99), st.integers(300, 999), st.sampled_from(['+1', '*2', '&"x"', '=1', '/3', '-v_a'])).map(lambda t: '%d^%d%s' % t),
     st.integers(1, 9).map(lambda d: 'PRODUCT(%s)' % ','.join(['99999999999999999999'] * (16 + d))), st.just('10^308*10'), st.just('-(7^400)'), st.just('{2^1100}'), st.just('SUM(3^700,1)'))
 
+DIGITISH = ['\u00b2', '\u00b3', '\u00b9', '\u2460', '\u2469', '\u2167', '\uff11\uff12', '\u0663', '\u0966', '\U0001d7d8', '\u2070', '\u2082', '\u00bd', '1', '0', '12', '\u0969\u0968', '\u3007', '\u4e09']
+digitish = st.one_of(st.lists(st.sampled_from(DIGITISH), min_size=1, max_size=4).map(''.join),
+                     st.tuples(st.sampled_from('0123456789'), st.integers(4290, 6000)).map(lambda t: t[0] * t[1]),
+                     st.integers(4290, 4310).map(lambda n: '1' + '0' * n), st.integers(300, 330).map(lambda n: '9' * n + '.5'))
+
 string_case = st.one_of(
+    digitish.map(lambda s: ['digitish', s]),
     bigint_forms.map(lambda s: ['bigint', s]),
     st.text(max_size=200).map(lambda s: ['unicode', s]),
     st.text(st.characters(min_codepoint=0, max_codepoint=0x10FFFF, blacklist_categories=()), max_size=40).map(lambda s: ['unicode', s]),
@@ -160,7 +166,7 @@ def check_string(case):
     import io
     import contextlib
     kind, text = case
-    if bigcost(text) and kind != 'bigint':
+    if bigcost(text) and kind not in ('bigint', 'digitish'):
         raise Skip('big-integer-cost')
     P = make_parser()
     if (len(text) + sum(map(ord, text[:3]))) % 3 == 0:
@@ -554,8 +560,8 @@ def fuzz_ntweight(case):
 
 LAWS = [
     Law('strings', check_string, strategy=string_case, classes=string_classes, nontrivial=string_nontrivial, quick=12000, thorough=400000, shards=(16, 16),
-        required=('gen:unicode', 'gen:soup', 'gen:mutated', 'gen:valid', 'gen:bigint'),
-        rule='(a) arbitrary Unicode text incl. surrogates and NUL up to 200 characters, (b) soups of 1-30 lexemes of every token class plus characters the lexer has no rule for, (c) valid generated formulas truncated / with a token deleted, duplicated, swapped or an unbalanced bracket or quote inserted, (d) valid formulas, (e) formulas whose value is an integer far beyond the double range (a^b, FACT, POWER, PRODUCT); a third of the inputs with debug output on: '
+        required=('gen:unicode', 'gen:soup', 'gen:mutated', 'gen:valid', 'gen:bigint', 'gen:digitish'),
+        rule='(a) arbitrary Unicode text incl. surrogates and NUL up to 200 characters, (b) soups of 1-30 lexemes of every token class plus characters the lexer has no rule for, (c) valid generated formulas truncated / with a token deleted, duplicated, swapped or an unbalanced bracket or quote inserted, (d) valid formulas, (e) formulas whose value is an integer far beyond the double range (a^b, FACT, POWER, PRODUCT), (f) strings of characters that Unicode classes as digits without being decimal digits, and digit strings of 4300-6000 characters; a third of the inputs with debug output on: '
              'parse returns within the step budget a record {result, error} with a canonical or empty error, an empty result when the error is set, and never an error object as result; non-trivial = at least 3 characters'),
     Law('repetitive', check_patho, strategy=patho_case, quick=3000, thorough=60000, shards=(16, 16), shrink=False,
         key=lambda c: 'cpu-time', nontrivial=lambda c: c['n'] >= 8,
